@@ -4,6 +4,7 @@ from dataclasses import asdict, dataclass, field, replace
 from types import TracebackType
 from typing import Any
 
+import equinox
 import lineax as lx
 import yaml
 
@@ -23,6 +24,19 @@ class ConfigState:
     solver_throw: bool = False
     solver_options: dict[str, Any] = field(default_factory=dict)
     solver_callback: Callable[[lx.Solution], None] = default_solver_callback
+
+    def __eq__(self, other: object) -> bool:
+        # The configuration is static metadata of the lazy inverse operators, hence part of jit cache
+        # keys: the comparison must return a bool also when the solver options hold arrays (an initial
+        # guess 'y0') or operators (a preconditioner), which the generated __eq__ compares with ==.
+        if not isinstance(other, ConfigState):
+            return NotImplemented
+        return (
+            bool(equinox.tree_equal(self.solver, other.solver))
+            and self.solver_throw == other.solver_throw
+            and bool(equinox.tree_equal(self.solver_options, other.solver_options))
+            and self.solver_callback == other.solver_callback
+        )
 
     def tree_flatten(self):  # type: ignore[no-untyped-def]
         return (), asdict(self)
